@@ -1,5 +1,6 @@
 import IcyVerif.Lemmas.Crc16
 import IcyVerif.Lemmas.Crc32Slice
+import IcyVerif.Lemmas.CrcSites
 /-! # C19 — table-driven CRCs equal their bitwise definitions
 Only property theorems and non-vacuity examples live here. -/
 namespace IcyVerif.C19
@@ -79,6 +80,201 @@ theorem source_skeleton_unchanged :
     src_update_crc32 = "(crc >> 8) ^ CRC32_TABLE[0][(b ^ crc as u8) as usize]" ∧
     src_get_crc32_loop = "while buf.len() >= 16 { result = CHAIN; buf = &buf[16..]; } update_slow(!result, buf)" :=
   ⟨rfl, rfl, rfl, rfl, rfl⟩
+
+/-! ## The call sites: the engine's own incremental use of `update_crc16` / `update_crc32`
+
+Second sentence of the property ("feeding a string byte by byte through the incremental update functions gives the same value as
+the one-shot functions") at the three places where the engine feeds bytes itself. -/
+section Sites
+open IcyVerif.CrcSites IcyVerif.Gen.CrcSites
+
+/-- the byte string one visible cell contributes to DECRQCRA: `ch as u8`, attribute word, foreground, background, all big endian
+    (the order is REGENERATED from the source: `rectFields`) -/
+theorem rect_cell_serial (c : Cell) :
+    c.serial = [BitVec.ofNat 8 c.ch,
+                BitVec.ofNat 8 (c.attr >>> 8), BitVec.ofNat 8 c.attr,
+                BitVec.ofNat 8 (c.fg >>> 24), BitVec.ofNat 8 (c.fg >>> 16), BitVec.ofNat 8 (c.fg >>> 8), BitVec.ofNat 8 c.fg,
+                BitVec.ofNat 8 (c.bg >>> 24), BitVec.ofNat 8 (c.bg >>> 16), BitVec.ofNat 8 (c.bg >>> 8), BitVec.ofNat 8 c.bg] := rfl
+
+/-- which cells: rows `pt..pb`, columns `pl..pr` (upper bounds exclusive, as the loops are written), row-major, visible cells only -/
+theorem rect_cells_spec (g : Grid) (pt pl pb pr : Nat) :
+    rectCells g pt pl pb pr =
+      (List.range' pt (pb - pt)).flatMap fun y =>
+        ((List.range' pl (pr - pl)).map fun x => getCell g x y).filter Cell.visible := by
+  unfold rectCells loopRange
+  have hy : rectIncl_y = false := rfl
+  have hx : rectIncl_x = false := rfl
+  simp only [hy, hx, Bool.false_eq_true, if_false]
+  congr 1
+  funext y
+  induction List.range' pl (pr - pl) with
+  | nil => rfl
+  | cons x xs ih =>
+    simp only [List.filterMap_cons, List.map_cons, List.filter_cons]
+    by_cases h : (getCell g x y).visible <;> simp [h, ih]
+
+/-- DECRQCRA's nested feeding loops = the one-shot `get_crc16` = bitwise CRC-16/XMODEM of the area's byte string,
+    for every grid and every area -/
+theorem rect_checksum_eq (g : Grid) (pt pl pb pr : Nat) :
+    rectChecksum g pt pl pb pr = getCrc16 (rectSerial g pt pl pb pr) ∧
+    rectChecksum g pt pl pb pr = bitCrc16 (rectSerial g pt pl pb pr) := by
+  have h := rectChecksum_fold g pt pl pb pr
+  exact ⟨h, by rw [h, ← get_crc16_eq]; rfl⟩
+
+/-- the whole request: six parameters and an area inside the terminal give the reply `ESC P id ! ~ hhhh ESC \` carrying the bitwise
+    CRC-16 of the area's byte string; everything else is an error and never a reply -/
+theorem decrqcra_reply (nums : List Int) (tw th : Int) (g : Grid) :
+    (∀ s, decrqcra nums tw th g = .send s →
+      nums.length = 6 ∧
+      0 ≤ nums.getD 2 0 ∧ nums.getD 2 0 ≤ nums.getD 4 0 ∧ nums.getD 4 0 ≤ th ∧
+      0 ≤ nums.getD 3 0 ∧ nums.getD 3 0 ≤ nums.getD 5 0 ∧ nums.getD 5 0 ≤ tw ∧
+      s = rectReply (nums.getD 0 0)
+            (bitCrc16 (rectSerial g (nums.getD 2 0).toNat (nums.getD 3 0).toNat (nums.getD 4 0).toNat (nums.getD 5 0).toNat))) ∧
+    (nums.length = 6 → 0 ≤ nums.getD 2 0 → nums.getD 2 0 ≤ nums.getD 4 0 → nums.getD 4 0 ≤ th →
+      0 ≤ nums.getD 3 0 → nums.getD 3 0 ≤ nums.getD 5 0 → nums.getD 5 0 ≤ tw →
+      ∃ s, decrqcra nums tw th g = .send s) := by
+  have c6 : rectNumCount = 6 := rfl
+  have i0 : rectIdx_id = 0 := rfl
+  have i2 : rectIdx_pt = 2 := rfl
+  have i3 : rectIdx_pl = 3 := rfl
+  have i4 : rectIdx_pb = 4 := rfl
+  have i5 : rectIdx_pr = 5 := rfl
+  unfold decrqcra
+  rw [c6, i0, i2, i3, i4, i5]
+  generalize nums.getD 0 0 = id
+  generalize nums.getD 2 0 = pt
+  generalize nums.getD 3 0 = pl
+  generalize nums.getD 4 0 = pb
+  generalize nums.getD 5 0 = pr
+  have bad_iff : areaBad pt pl pb pr tw th = false ↔ (0 ≤ pt ∧ pt ≤ pb ∧ pb ≤ th ∧ 0 ≤ pl ∧ pl ≤ pr ∧ pr ≤ tw) := by
+    unfold areaBad
+    simp only [Bool.or_eq_false_iff, decide_eq_false_iff_not, Int.not_lt]
+    omega
+  constructor
+  · intro s hs
+    by_cases hl : nums.length = 6
+    · rw [if_neg (by simpa using hl)] at hs
+      dsimp only at hs
+      cases hb : areaBad pt pl pb pr tw th with
+      | true => rw [hb] at hs; simp only [if_true] at hs; cases hs
+      | false =>
+        rw [hb] at hs
+        simp only [Bool.false_eq_true, if_false, RectOut.send.injEq] at hs
+        obtain ⟨a, b, c, d, e, f⟩ := bad_iff.mp hb
+        refine ⟨hl, a, b, c, d, e, f, ?_⟩
+        rw [← hs, (rect_checksum_eq g _ _ _ _).2]
+    · rw [if_pos (by simpa using hl)] at hs
+      cases hs
+  · intro hl a b c d e f
+    have hb := bad_iff.mpr ⟨a, b, c, d, e, f⟩
+    rw [if_neg (by simpa using hl)]
+    dsimp only
+    rw [hb]
+    exact ⟨_, rfl⟩
+
+/-- `BitFont::calculate_checksum` = the raw CRC-32 register (start 0, no inversion) folded over the bytes of EVERY glyph whose
+    index is below `length`, in index order; as a table-driven fold, as the bitwise definition, and in terms of the one-shot
+    `get_crc32` (the all-ones start and the final inversion cancel by XOR-linearity) -/
+theorem font_checksum_eq (length : Int) (t : GlyphTable) :
+    fontChecksum length t = (fontBytes length t).foldl updateCrc32 0 ∧
+    fontChecksum length t = (fontBytes length t).foldl bitUpd32 0 ∧
+    fontChecksum length t = getCrc32 (fontBytes length t) ^^^ getCrc32 (List.replicate (fontBytes length t).length 0) := by
+  have h0 : BitVec.ofNat 32 fontInit = 0 := rfl
+  have h := fontChecksum_fold length t
+  rw [h0] at h
+  refine ⟨h, ?_, ?_⟩
+  · rw [h, fold_upd_eq_bit]
+  · rw [h, fold_upd_eq_bit, raw_zero_eq, get_crc32_eq, get_crc32_eq]
+
+/-- the loop runs over `0..length` exactly: index `i` contributes iff `i < length` (and it is a `char` and the glyph exists) -/
+theorem font_loop_spec (length : Int) : fontLoop length = List.range length.toNat := by
+  unfold fontLoop loopRange
+  have h1 : fontLoopIncl = false := rfl
+  have h2 : fontLoopFrom = 0 := rfl
+  simp [h1, h2, List.range_eq_range']
+
+/-- coverage: for a font that has all its `length` glyphs (any number of them below the surrogate range — 256, 512, …) the
+    checksum is the fold over the WHOLE glyph data, i.e. over `convert_to_u8_data()` -/
+theorem font_checksum_covers (gs : List (List Byte)) (h : gs.length ≤ 0xD800) :
+    fontChecksum gs.length (gs.map some) = gs.flatten.foldl updateCrc32 0 := by
+  rw [(font_checksum_eq _ _).1]
+  congr 1
+  unfold fontBytes
+  rw [font_loop_spec]
+  have := filterMap_glyphs [] gs (by simpa using h)
+  simp only [List.length_nil, List.nil_append] at this
+  rw [Int.toNat_natCast, List.range_eq_range', this]
+
+/-- `Palette::get_checksum` after ANY history of palette operations (pushes, edits, removals, earlier `get_checksum` calls in any
+    split) on a freshly constructed palette returns the raw CRC-32 register (start 0) folded over the r,g,b bytes of ALL colours
+    present at that moment — as a table-driven fold, as the bitwise definition, and in terms of the one-shot `get_crc32` -/
+theorem palette_checksum_any_history (cs : List Rgb) (ops : List PalOp) :
+    let p := (Pal.fresh cs).run ops
+    p.getChecksum.2 = (palBytes p.colors).foldl updateCrc32 0 ∧
+    p.getChecksum.2 = (palBytes p.colors).foldl bitUpd32 0 ∧
+    p.getChecksum.2 = getCrc32 (palBytes p.colors) ^^^ getCrc32 (List.replicate (palBytes p.colors).length 0) := by
+  intro p
+  have hg : p.Good := good_run _ ops (good_fresh cs)
+  have h := getChecksum_of_good p hg
+  rw [colors_fold] at h
+  refine ⟨h, ?_, ?_⟩
+  · rw [h, fold_upd_eq_bit]
+  · rw [h, fold_upd_eq_bit, raw_zero_eq, get_crc32_eq, get_crc32_eq]
+
+/-- the r,g,b order of one colour (REGENERATED: `palFields`) -/
+theorem palette_color_serial (c : Rgb) : c.serial = [BitVec.ofNat 8 c.r, BitVec.ofNat 8 c.g, BitVec.ofNat 8 c.b] := rfl
+
+/-- repeated calls without a change in between return the same value and feed nothing -/
+theorem palette_checksum_idempotent (cs : List Rgb) (ops : List PalOp) :
+    let p := ((Pal.fresh cs).run ops).getChecksum.1
+    p.getChecksum = (p, ((Pal.fresh cs).run ops).getChecksum.2) := by
+  intro p
+  show ((Pal.fresh cs).run ops).getChecksum.1.getChecksum = (((Pal.fresh cs).run ops).getChecksum.1, _)
+  unfold Pal.getChecksum
+  simp
+
+/-- the hand-modelled parts of the three call sites (and of every `Palette` method that writes the colour vector or the cache) are
+    textually what the model was written from; the number of places that write `self.colors` / the cache fields is pinned, so a
+    new writer has to be modelled before this obligation checks again -/
+theorem call_sites_skeleton_unchanged :
+    src_decrqcra = "self.state = EngineState::Default; if self.parsed_numbers.len() != 6 { return Err(ParserError::UnsupportedEscapeSequence(self.current_escape_sequence.clone()).into()); } let pt = self.parsed_numbers[2]; let pl = self.parsed_numbers[3]; let pb = self.parsed_numbers[4]; let pr = self.parsed_numbers[5]; if pt > pb || pl > pr || pr > buf.terminal_state.get_width() || pb > buf.terminal_state.get_height() || pl < 0 || pt < 0 { return Err(ParserError::UnsupportedEscapeSequence(format!(\"invalid area for requesting checksum pt:{pt} pl:{pl} pb:{pb} pr:{pr}\")).into()); } let mut crc16 = 0; for y in pt..pb { for x in pl..pr { let ch = buf.get_char((x, y)); if ch.is_visible() { SERIAL } } } Ok(CallbackAction::SendString(format!(\"\\x1BP{}!~{crc16:04X}\\x1B\\\\\", self.parsed_numbers[0])))" ∧
+    src_is_visible = "(self.attribute.attr & crate::attribute::INVISIBLE) == 0" ∧
+    src_font_calculate_checksum = "let mut crc = 0; for ch in 0..self.length { if let Some(glyph) = char::from_u32(ch as u32).and_then(|ch| self.get_glyph(ch)) { for b in &glyph.data { crc = update_crc32(crc, *b); } } } self.checksum = crc;" ∧
+    src_font_get_checksum = "self.checksum" ∧
+    src_font_get_glyph = "self.glyphs.get(&ch)" ∧
+    src_pal_get_checksum = "for i in self.old_checksum..self.colors.len() { let c = &self.colors[i]; FIELDS; } self.old_checksum = self.colors.len(); self.checksum" ∧
+    src_pal_invalidate_checksum = "self.old_checksum = 0; self.checksum = 0;" ∧
+    src_pal_push = "self.colors.push(color);" ∧
+    src_pal_set_color = "if self.colors.len() <= color as usize { self.colors.resize(color as usize + 1, Color::default()); } self.colors[color as usize] = color_struct; self.invalidate_checksum();" ∧
+    src_pal_set_color_rgb = "if self.colors.len() <= color as usize { self.colors.resize(color as usize + 1, Color::default()); } self.colors[color as usize] = Color { name: None, r, g, b }; self.invalidate_checksum();" ∧
+    src_pal_set_color_hsl = "if self.colors.len() <= color as usize { self.colors.resize(color as usize + 1, Color::default()); } HSL; self.colors[color as usize] = Color { name: None, r, g, b }; self.invalidate_checksum();" ∧
+    src_pal_clear = "self.colors.clear(); self.invalidate_checksum();" ∧
+    src_pal_resize = "if size > self.colors.len() { self.fill_to_16(); self.colors.resize(size, Color::default()); } if size < self.colors.len() { self.colors.resize(size, Color::default()); self.invalidate_checksum(); }" ∧
+    src_pal_fill_to_16 = "if self.colors.len() < DOS_DEFAULT_PALETTE.len() { (self.colors.len()..DOS_DEFAULT_PALETTE.len()).for_each(|i| { self.colors.push(DOS_DEFAULT_PALETTE[i].clone()); }); }" ∧
+    src_pal_insert_color = "for i in 0..self.colors.len() { let col = self.colors[i].clone(); if col.r == color.r && col.g == color.g && col.b == color.b { return i as u32; } } self.colors.push(color); (self.colors.len() - 1) as u32" ∧
+    src_pal_len = "self.colors.len()" ∧
+    palColorWrites = 12 ∧ palCacheWrites = 6 ∧ palInitOld = 0 ∧ palInitReg = 0 ∧ attrInvisible = 0x8000 :=
+  ⟨rfl, rfl, rfl, rfl, rfl, rfl, rfl, rfl, rfl, rfl, rfl, rfl, rfl, rfl, rfl, rfl, rfl, rfl, rfl, rfl, rfl⟩
+
+/-! non-vacuity of the call-site theorems -/
+-- a 2x2 grid with an underlined cell, a 300/256 colour pair, an invisible cell; the area is the whole grid
+example : rectSerial [[⟨65, 0x10, 7, 0⟩, ⟨66, 0x8000, 1, 2⟩], [⟨0x2500, 0x208, 300, 256⟩, ⟨67, 0, 0x80123456, 15⟩]] 0 0 2 2 =
+    [65, 0, 0x10, 0, 0, 0, 7, 0, 0, 0, 0,
+     0, 2, 8, 0, 0, 1, 0x2C, 0, 0, 1, 0,
+     67, 0, 0, 0x80, 0x12, 0x34, 0x56, 0, 0, 0, 15] := by decide +kernel
+example : decrqcra [7, 1, 0, 0, 1, 1] 80 25 [[⟨97, 0, 7, 0⟩]] = .send (rectReply 7 (bitCrc16 [97, 0, 0, 0, 0, 0, 7, 0, 0, 0, 0])) := by
+  decide +kernel
+example : decrqcra [7, 1, 0, 0, 26, 1] 80 25 [] = .areaError 0 0 26 1 := by decide +kernel
+-- two 257-glyph fonts (1 byte per glyph) that differ only in glyph 256 have different checksums
+example : fontChecksum 257 ((List.replicate 256 (some [0x55])) ++ [some [1]]) ≠
+          fontChecksum 257 ((List.replicate 256 (some [0x55])) ++ [some [2]]) := by decide +kernel
+-- exactly one pending colour when `get_checksum` is called again
+example : ((Pal.fresh [⟨1, 2, 3⟩]).run [.getChecksum, .push ⟨4, 5, 6⟩]).getChecksum.2 =
+          [1, 2, 3, 4, 5, 6].foldl bitUpd32 0 := by decide +kernel
+-- an already summed colour is edited
+example : ((Pal.fresh [⟨1, 2, 3⟩]).run [.getChecksum, .setColor 0 ⟨9, 9, 9⟩]).getChecksum.2 = [9, 9, 9].foldl bitUpd32 0 := by
+  decide +kernel
+end Sites
 
 /-! non-vacuity: the values of the repository's own unit tests -/
 example : getCrc16 [4, 0, 0, 5, 3] = 0x4690#16 := by decide +kernel
